@@ -116,7 +116,7 @@ def judge_table(case, part):
     for data_format in FORMATS:
         rows, decls = cid_rows_for(fields, data_format, sheet)
         config = {"preset": data_format, "header": 0, "fields": fields, "sheet": sheet if data_format != "delimited" else 1,
-                  "odf": {"span_range": [1, 6], "span_nested": bool(sheet % 2), "col_runs": True}}  # ODS data: part of every longer cell inside inline elements, runs of equal cells stored once
+                  "odf": {"span_range": [1, 6], "span_nested": bool(sheet % 2), "col_runs": True, "paragraphs": True}}  # ODS data: part of every longer cell inside inline elements, runs of equal cells stored once, one paragraph per line of a cell
         for storage in STORAGES:
             outcome, cid = load(store_rows(rows, storage, "tcid"))
             part.transitions += 2
@@ -167,6 +167,10 @@ def tables_for(fields, count):
         base_rows.append([accepted[i][variant % len(accepted[i])] for i in range(len(fields))])
     tables.append(([list(r) for r in base_rows], False))
     tables.append(([list(base_rows[0]), list(base_rows[0])], True))  # duplicate key
+    # the very first cell of the data starts with U+FEFF: an ordinary character of that cell in every storage format
+    marked = [list(base_rows[0]), list(base_rows[1])]
+    marked[0][0] = "\ufeff" + marked[0][0]
+    tables.append((marked, True))
     if len(fields) >= 3:
         # rows ending in two or three empty cells (an office suite stores such a run as one repeated cell); another row keeps the sheet width
         for trailing in (2, 3):
